@@ -3,6 +3,7 @@ import asyncio
 import logging
 import random
 
+from harness.decoys import decoyed
 from harness.legs import cfg_text, gen_traces, leg_apalache, leg_m, leg_mutant, leg_r, leg_t_gen
 from harness.vloop import Falsy, VClock, VLoop
 
@@ -164,6 +165,7 @@ class RetryDriver:
                 async def fn():
                     return body()
 
+            decoyed(fn)
             wrapped = retry(fn) if kw is None else retry(**kw)(fn)
             # first use of the wrapper object: one caught failure, then success - nothing of it may carry over
             try:
